@@ -22,6 +22,7 @@ from ..engine import LVec
 from ..verdict import Result
 
 LEVEL = "exploration"
+AWKWARD_REGISTRATION_MIX = True
 REPS = {"quick": 1, "thorough": 10}
 RULE = ("20 coordinate systems x 2 flavors x NumPy shapes {(n,), (a,b), (a,b,c), (0,), (a,0)} x axis in {None, each axis, "
         "negative axes, tuples} x keepdims, and Awkward layouts {jagged with empty lists, with missing lists, depth 3} x "
